@@ -682,7 +682,12 @@ class Run:
         self.build_no += 1
         self.cur = step
         sb = self.sb
-        vers = {k: terms.from_term(v) for k, v in (step.get('vers') or {}).items()}
+        # the application passes the *same* dictionary object to every build and edits it between builds
+        if not hasattr(self, 'vers_obj'):
+            self.vers_obj = {}
+        self.vers_obj.clear()
+        self.vers_obj.update({k: terms.from_term(v) for k, v in (step.get('vers') or {}).items()})
+        vers = self.vers_obj
         disk = sb.snapshot()
         vterm = {'k': 'dict', 'kv': [[terms.to_term(k), v] for k, v in (step.get('vers') or {}).items()]}
         self.ev(ev='build', name=step.get('name', 'B'), vers=vterm, bad=bool(step.get('bad')),
@@ -743,11 +748,14 @@ class Run:
             except (Exception, UserBaseError) as x:
                 return {'out': 'raised', 'v': {'k': 'none'}, 'err': x.__class__.__name__,
                         'same': state['exc'] is not None and x is state['exc']}
+        dubious = sb.cache_is_dubious()
         try:
             if step.get('straggler'):
                 out = self.build_with_straggler(step, the_build, root)
             else:
                 out = the_build()
+            if dubious and state['invoked']:
+                self.unjudged = True      # a wrong-shaped cache was taken for a cache: what follows is not specified
         finally:
             if old_tmp is None:
                 os.environ.pop('TMPDIR', None)
@@ -793,9 +801,12 @@ class Run:
             a_cache = 12345
         if step.get('noname'):
             a_name = None
+        dubious = sb.cache_is_dubious()
         try:
             FileBuilder.clean(a_cache, a_name)
             out, err = 'ok', ''
+            if dubious:
+                self.unjudged = True      # a wrong-shaped cache was taken for a cache: what follows is not specified
         except Exception as x:
             out, err = 'raised', x.__class__.__name__
         after = sb.snapshot()
